@@ -436,6 +436,75 @@ fn parse_batch() {
     }
 }
 
+/// reflect-sweep: for EVERY enumerant of ExecutionMode/Decoration and EVERY combination of declared bits of the four
+/// parameterised masks, compares `Operand::additional_operands()` with what the real parser consumes after that value
+/// (same sequence for enumerants, same multiset for masks). Prints `checked <n>` per kind and a MISMATCH line per disagreement.
+fn reflect_sweep() {
+    use rspirv::dr::Operand;
+    fn variant_of_kind(k: &str) -> String {
+        match k { "LiteralInteger" | "LiteralFloat" => "LiteralBit32".to_string(), other => other.to_string() }
+    }
+    fn parsed_variants(words: &[u32], skip: usize) -> Result<Vec<String>, String> {
+        let mut all = vec![0x07230203u32, 0x00010000, 0, 100, 0];
+        all.extend_from_slice(words);
+        struct C(Option<rspirv::dr::Instruction>);
+        impl rspirv::binary::Consumer for C {
+            fn initialize(&mut self) -> rspirv::binary::ParseAction { rspirv::binary::ParseAction::Continue }
+            fn finalize(&mut self) -> rspirv::binary::ParseAction { rspirv::binary::ParseAction::Continue }
+            fn consume_header(&mut self, _h: rspirv::dr::ModuleHeader) -> rspirv::binary::ParseAction { rspirv::binary::ParseAction::Continue }
+            fn consume_instruction(&mut self, i: rspirv::dr::Instruction) -> rspirv::binary::ParseAction { self.0 = Some(i); rspirv::binary::ParseAction::Continue }
+        }
+        let mut c = C(None);
+        match rspirv::binary::parse_words(&all, &mut c) {
+            Ok(()) => Ok(c.0.unwrap().operands.iter().skip(skip).map(|o| { let d = format!("{:?}", o); d.split('(').next().unwrap().to_string() }).collect()),
+            Err(e) => Err(format!("{:?}", e).replace(' ', "")),
+        }
+    }
+    // (carrier opcode, words before the value, operands before the value's parameters)
+    fn check(name: &str, value: u32, op: Operand, opcode: u32, prefix: &[u32], skip: usize, as_multiset: bool) -> bool {
+        let refl: Vec<String> = op.additional_operands().iter().map(|l| variant_of_kind(&format!("{:?}", l.kind))).collect();
+        let mut words = vec![0u32];
+        words.extend_from_slice(prefix);
+        words.push(value);
+        words.extend(std::iter::repeat(0u32).take(refl.len()));
+        words[0] = ((words.len() as u32) << 16) | opcode;
+        let parsed = parsed_variants(&words, skip);
+        let ok = match &parsed {
+            Ok(p) => {
+                if as_multiset { let mut a = p.clone(); a.sort(); let mut b = refl.clone(); b.sort(); a == b } else { *p == refl }
+            }
+            Err(_) => false,
+        };
+        if !ok {
+            println!("MISMATCH {} value={} reflection={:?} parser={:?}", name, value, refl, parsed);
+        }
+        ok
+    }
+    let mut n = 0;
+    for v in 0u32..=70000 {
+        if let Some(m) = spirv::ExecutionMode::from_u32(v) { n += 1; check("ExecutionMode", v, Operand::ExecutionMode(m), 16, &[1], 2, false); }
+    }
+    println!("checked ExecutionMode {}", n);
+    n = 0;
+    for v in 0u32..=70000 {
+        if let Some(m) = spirv::Decoration::from_u32(v) { n += 1; check("Decoration", v, Operand::Decoration(m), 71, &[1], 2, false); }
+    }
+    println!("checked Decoration {}", n);
+    fn submasks(all: u32) -> Vec<u32> { let mut out = vec![]; let mut s = all; loop { out.push(s); if s == 0 { break; } s = (s - 1) & all; } out }
+    n = 0;
+    for b in submasks(spirv::ImageOperands::all().bits()) { n += 1; check("ImageOperands", b, Operand::ImageOperands(spirv::ImageOperands::from_bits(b).unwrap()), 87, &[1, 2, 3, 4], 3, true); }
+    println!("checked ImageOperands {}", n);
+    n = 0;
+    for b in submasks(spirv::LoopControl::all().bits()) { n += 1; check("LoopControl", b, Operand::LoopControl(spirv::LoopControl::from_bits(b).unwrap()), 246, &[1, 2], 3, true); }
+    println!("checked LoopControl {}", n);
+    n = 0;
+    for b in submasks(spirv::MemoryAccess::all().bits()) { n += 1; check("MemoryAccess", b, Operand::MemoryAccess(spirv::MemoryAccess::from_bits(b).unwrap()), 61, &[1, 2, 3], 2, true); }
+    println!("checked MemoryAccess {}", n);
+    n = 0;
+    for b in submasks(spirv::TensorAddressingOperands::all().bits()) { n += 1; check("TensorAddressingOperands", b, Operand::TensorAddressingOperands(spirv::TensorAddressingOperands::from_bits(b).unwrap()), 5367, &[1, 2, 3, 4, 5, 0], 5, true); }
+    println!("checked TensorAddressingOperands {}", n);
+}
+
 fn main() {
     let args: Vec<String> = env::args().collect();
     match args.get(1).map(|s| s.as_str()) {
@@ -450,6 +519,7 @@ fn main() {
         Some("builder-script") => builder_script(&args[2..]),
         Some("consumer-script") => consumer_script(&args[2..]),
         Some("parse-batch") => parse_batch(),
+        Some("reflect-sweep") => reflect_sweep(),
         Some("builder-batch") => {
             use std::io::BufRead;
             std::panic::set_hook(Box::new(|_| {}));
